@@ -34,7 +34,8 @@ ALPHA = {
     "insert_t1": ("insert into t1 values (1, 'x')", {"t1"}, {"rows"}, set()),
     "update_t1": ("update t1 set b = 'y' where a = 1", {"t1", "rows"}, set(), set()),
     "merge_t1": (MERGE, {"t1"}, {"rows"}, set()),
-    "view_v1": ("create view v1 as select a from t1", {"t1", "!v1"}, {"v1"}, set()),
+    "view_v1": ("create view v1 comment = 'cv' as select a, b::varchar(4) as sb from t1", {"t1", "!v1"}, {"v1"}, set()),
+    "add_col_t1": ("alter table t1 add column note varchar(20)", {"t1", "!v1", "!note"}, {"note"}, set()),
     "comment_t1": ("comment on table t1 is 'c2'", {"t1"}, set(), set()),
     "rename_t1": ("alter table t1 rename to t9", {"t1", "!v1"}, set(), {"t1"}),
     "create_schema": ("create schema s5", {"!s5"}, {"s5"}, set()),
